@@ -33,6 +33,7 @@ import (
 	"os"
 	"path/filepath"
 	"reflect"
+	"regexp"
 	"sort"
 	"strings"
 )
@@ -726,8 +727,8 @@ func findCollTypes(p *pkg, rel string) []*collType {
 						}
 					case "mx":
 						se, ok := f.Type.(*ast.SelectorExpr)
-						if !ok || identName(se.X) != "sync" || se.Sel.Name != "RWMutex" {
-							p.bad(f, "%s.mx is not a sync.RWMutex", ct.name)
+						if !ok || identName(se.X) != "sync" || se.Sel.Name != "RWMutex" || importsAt(p, f.Pos())["sync"] != "sync" {
+							p.bad(f, "%s.mx is not a sync.RWMutex (of the standard library's package sync)", ct.name)
 						}
 						ct.hasMutex = true
 					default:
@@ -858,6 +859,49 @@ func constructorOf(fd *ast.FuncDecl) string {
 	return recvName(fd.Type.Results.List[0].Type)
 }
 
+var genMarkerLine = regexp.MustCompile(`(?m)^[ \t]*//[ \t]*gen:(OrderedMap|UnsafeOrderedMap|Set)[ \t]*\r?$`)
+
+// collectionPackages: the packages of the library (directories relative to the repository root, sorted) in which a
+// non-test file carries a `// gen:OrderedMap`, `// gen:UnsafeOrderedMap` or `// gen:Set` marker line - today catalog and
+// directive.  Found by looking, so that a collection generated into another package is not silently left out.
+// internal/ (the code generators themselves and other separate programs), test/ and testdata are not library code.
+func collectionPackages(repo string) []string {
+	seen := map[string]bool{}
+	filepath.WalkDir(repo, func(path string, d os.DirEntry, err error) error {
+		if err != nil {
+			return nil
+		}
+		if d.IsDir() {
+			n := d.Name()
+			if path != repo && (strings.HasPrefix(n, ".") || n == "internal" || n == "test" || n == "testdata" || n == "vendor") {
+				return filepath.SkipDir
+			}
+			return nil
+		}
+		if !strings.HasSuffix(path, ".go") || strings.HasSuffix(path, "_test.go") {
+			return nil
+		}
+		src, rerr := os.ReadFile(path)
+		if rerr != nil {
+			fatal("%v", rerr)
+		}
+		if genMarkerLine.Match(src) {
+			rel, _ := filepath.Rel(repo, filepath.Dir(path))
+			seen[filepath.ToSlash(rel)] = true
+		}
+		return nil
+	})
+	out := make([]string, 0, len(seen))
+	for r := range seen {
+		out = append(out, r)
+	}
+	sort.Strings(out)
+	if len(out) == 0 {
+		fatal("no gen: collection marker found under %s", repo)
+	}
+	return out
+}
+
 func genCollections(repo string) string {
 	nfs := parseNormalForms()
 	type emitted struct {
@@ -865,7 +909,7 @@ func genCollections(repo string) string {
 		methods []collMethod
 	}
 	var all []emitted
-	for _, rel := range []string{"catalog", "directive"} {
+	for _, rel := range collectionPackages(repo) {
 		p := loadPkg(repo, rel)
 		cts := findCollTypes(p, rel)
 		if len(cts) == 0 {
